@@ -41,7 +41,7 @@ Qed.
 
 Lemma conflictb_spec a b : conflict a b -> conflictb a b = true.
 Proof.
-  intros (Hc & Hw & Ha & Hl). unfold conflictb.
+  intros (Hc & Hw & Ha & Hl & Hm1 & Hm2). unfold conflictb.
   rewrite Hc, String.eqb_refl. cbn [andb].
   assert (Hw' : is_write (s_kind (e_site a)) || is_write (s_kind (e_site b)) = true)
     by (destruct Hw as [-> | ->]; cbn; [reflexivity|apply orb_true_r]).
@@ -50,7 +50,9 @@ Proof.
   { destruct (s_sync (e_site a)) eqn:E1, (s_sync (e_site b)) eqn:E2; cbn; try reflexivity. exfalso. apply Ha. split; reflexivity. }
   assert (H2 : sync_eqb (s_sync (e_site a)) Locked && sync_eqb (s_sync (e_site b)) Locked = false).
   { destruct (s_sync (e_site a)) eqn:E1, (s_sync (e_site b)) eqn:E2; cbn; try reflexivity. exfalso. apply Hl. split; reflexivity. }
-  rewrite H1, H2. reflexivity.
+  rewrite H1, H2. cbn [negb andb].
+  destruct (s_sync (e_site a)); try (exfalso; apply Hm1; reflexivity);
+    destruct (s_sync (e_site b)); try (exfalso; apply Hm2; reflexivity); reflexivity.
 Qed.
 
 Lemma pair_ok_sound a b :
@@ -89,35 +91,43 @@ Qed.
     function; the classification is closed under the calls of the package; the
     synchronisation skeleton, the tracked cells and the pointer aliases are the
     ones the model was written for. *)
-Theorem protocol_sound : forall sites calls skeleton tracked aliases,
-  full_check sites calls skeleton tracked aliases = true ->
+Theorem protocol_sound : forall sites calls skeleton tracked aliases messages,
+  full_check sites calls skeleton tracked aliases messages = true ->
   (forall a b, In a (expand sites) -> In b (expand sites) -> conflict a b ->
      hb (e_comp a) (e_comp b) \/ hb (e_comp b) (e_comp a) \/ same_component a b)
+  /\ (forall s, In s sites -> s_sync s = Msg ->
+        comps_of (s_func s) <> [] /\ incl (comps_of (s_func s)) (producers_of (s_cell s)))
   /\ (forall s, In s sites -> comps_of (s_func s) <> [])
   /\ (forall f g, In (f, g) calls -> comps_of g <> [] -> ~ In Any (comps_of g) ->
         comps_of f <> [] /\ incl (comps_of f) (comps_of g))
-  /\ skeleton = expected_skeleton /\ tracked = cells /\ aliases = expected_aliases.
+  /\ skeleton = expected_skeleton /\ tracked = cells /\ aliases = expected_aliases
+  /\ messages = map fst producers.
 Proof.
-  intros sites calls skeleton tracked aliases H. unfold full_check in H.
-  repeat (apply andb_true_iff in H; destruct H as [H ?]).
-  repeat split.
-  - intros a b Ha Hb Hc. rewrite forallb_forall in H. specialize (H a Ha).
-    rewrite forallb_forall in H. apply pair_ok_sound; [apply H; exact Hb|exact Hc].
-  - intros s Hs. rewrite forallb_forall in H4. specialize (H4 s Hs). unfold mapped in H4.
-    destruct (comps_of (s_func s)); [discriminate|discriminate].
-  - rewrite forallb_forall in H3. specialize (H3 (f, g) H5). unfold edge_ok in H3.
-    unfold mapped in H3. destruct (comps_of g) eqn:Eg; [contradiction|].
-    cbn [negb orb] in H3. destruct (has_any (c :: l)) eqn:Ea.
-    + exfalso. apply H7. unfold has_any in Ea. apply existsb_exists in Ea. destruct Ea as (x & Hx & E).
+  intros sites calls skeleton tracked aliases messages H. unfold full_check in H.
+  apply andb_true_iff in H; destruct H as [H Hal].
+  apply andb_true_iff in H; destruct H as [H Htr].
+  apply andb_true_iff in H; destruct H as [H Hsk].
+  apply andb_true_iff in H; destruct H as [H Hed].
+  apply andb_true_iff in H; destruct H as [H Hmp].
+  apply andb_true_iff in H; destruct H as [H Hms].
+  apply andb_true_iff in H; destruct H as [Hpairs Hmsg].
+  split; [|split; [|split; [|split; [|split; [|split; [|split]]]]]].
+  - intros a b Ha Hb Hc. rewrite forallb_forall in Hpairs. specialize (Hpairs a Ha).
+    rewrite forallb_forall in Hpairs. apply pair_ok_sound; [apply Hpairs; exact Hb|exact Hc].
+  - intros s Hs Hm. rewrite forallb_forall in Hmsg. specialize (Hmsg s Hs). unfold msg_ok in Hmsg.
+    rewrite Hm in Hmsg. cbn [sync_eqb negb orb] in Hmsg. apply andb_true_iff in Hmsg. destruct Hmsg as [M1 M2].
+    split; [|apply subset_incl; exact M2]. unfold mapped in M1. destruct (comps_of (s_func s)); discriminate.
+  - intros s Hs. rewrite forallb_forall in Hmp. specialize (Hmp s Hs). unfold mapped in Hmp.
+    destruct (comps_of (s_func s)); discriminate.
+  - intros f g Hin Hg Hany. rewrite forallb_forall in Hed. specialize (Hed (f, g) Hin). unfold edge_ok in Hed.
+    unfold mapped in Hed. destruct (comps_of g) eqn:Eg; [contradiction|].
+    cbn [negb orb] in Hed. destruct (has_any (c :: l)) eqn:Ea.
+    + exfalso. apply Hany. unfold has_any in Ea. apply existsb_exists in Ea. destruct Ea as (x & Hx & E).
       apply comp_eqb_eq in E. subst. exact Hx.
-    + cbn [orb] in H3. destruct (comps_of f); [discriminate|discriminate].
-  - rewrite forallb_forall in H3. specialize (H3 (f, g) H5). unfold edge_ok in H3.
-    unfold mapped in H3. destruct (comps_of g) eqn:Eg; [contradiction|].
-    cbn [negb orb] in H3. destruct (has_any (c :: l)) eqn:Ea.
-    + exfalso. apply H7. unfold has_any in Ea. apply existsb_exists in Ea. destruct Ea as (x & Hx & E).
-      apply comp_eqb_eq in E. subst. exact Hx.
-    + cbn [orb] in H3. apply andb_true_iff in H3. destruct H3 as [_ H3]. apply subset_incl. exact H3.
+    + cbn [orb] in Hed. apply andb_true_iff in Hed. destruct Hed as [M1 M2].
+      split; [destruct (comps_of f); discriminate|apply subset_incl; exact M2].
   - apply (list_eqb_eq String.eqb String.eqb_eq). assumption.
   - apply (list_eqb_eq String.eqb String.eqb_eq). assumption.
   - apply (list_eqb_eq str_pair_eqb str_pair_eqb_eq). assumption.
+  - apply (list_eqb_eq String.eqb String.eqb_eq). assumption.
 Qed.
